@@ -231,15 +231,22 @@ bool Units::UnitsImpl::performTestWithHistory(History &history, const UnitsConst
  *
  * @return Either @c true or @c false, depending if the units were successfully updated.
  */
-bool updateUnitMultiplier(const UnitsPtr &units, int direction, double &multiplier)
+bool updateUnitMultiplier(const UnitsPtr &units, int direction, double &multiplier, std::vector<UnitsPtr> &unitsPath)
 {
     double localMultiplier = 0;
+
+    // Units that cannot be found, or that are defined in terms of themselves, do not have a multiplier.
+    // Note: the path is only unwound on success, a failure ends the whole computation.
+    if ((units == nullptr) || (std::find(unitsPath.begin(), unitsPath.end(), units) != unitsPath.end())) {
+        return false;
+    }
+    unitsPath.push_back(units);
 
     if (units->isImport()) {
         if (units->isResolved()) {
             auto importSource = units->importSource();
             auto importedUnits = importSource->model()->units(units->importReference());
-            updateUnitMultiplier(importedUnits, 1, localMultiplier);
+            updateUnitMultiplier(importedUnits, 1, localMultiplier, unitsPath);
             multiplier += localMultiplier * direction;
         } else {
             return false;
@@ -278,7 +285,7 @@ bool updateUnitMultiplier(const UnitsPtr &units, int direction, double &multipli
                 }
                 double branchMult = 0.0;
                 // Return false when we can't find a valid prefix.
-                if (!updateUnitMultiplier(refUnits, 1, branchMult)) {
+                if (!updateUnitMultiplier(refUnits, 1, branchMult, unitsPath)) {
                     return false;
                 }
                 // Make the direction positive on all branches, direction is only applied at the end.
@@ -290,7 +297,15 @@ bool updateUnitMultiplier(const UnitsPtr &units, int direction, double &multipli
         multiplier += standardMultiplierList.at(units->name()) * direction;
     }
 
+    unitsPath.pop_back();
+
     return true;
+}
+
+bool updateUnitMultiplier(const UnitsPtr &units, int direction, double &multiplier)
+{
+    std::vector<UnitsPtr> unitsPath;
+    return updateUnitMultiplier(units, direction, multiplier, unitsPath);
 }
 
 UnitsPtr Units::create() noexcept
